@@ -190,11 +190,21 @@ class Recorder:
             self.harness_errors.append('%s on case %s' %
                                        (e, self.canon.short(case)))
             raise
-        except Exception:
-            self.harness_errors.append(
-                'unexpected exception in oracle of %s on case %s\n%s' %
-                (comp.name, self.canon.short(case), traceback.format_exc()))
-            raise HarnessError('oracle crashed')
+        except Exception as e:
+            site = lib_site(e)
+            if site == 'outside-pamqp' or isinstance(e, (MemoryError, RecursionError)):
+                self.harness_errors.append(
+                    'unexpected exception in oracle of %s on case %s\n%s' %
+                    (comp.name, self.canon.short(case), traceback.format_exc()))
+                raise HarnessError('oracle crashed')
+            # raised *inside the library* by a call the oracle expects to succeed on an
+            # input of the property's domain (every call that may legitimately raise is
+            # made through lib.call or an explicit try): the library's failure, not ours
+            violation = Violation('raises:%s@%s' % (type(e).__name__, site),
+                                  'the library raised %s where the oracle of %s needs an '
+                                  'answer: %s' % (type(e).__name__, comp.name,
+                                                  self.canon.short(str(e), 200)))
+            self.fail(violation.bucket, case, violation.message)
         if info:
             if isinstance(info, dict):
                 self.extra['sub_evaluations'] += info.get('sub_evaluations', 0)
@@ -680,6 +690,14 @@ def replay(mod, path):
             print('  component=%s bucket=%s logging=%s\n  %s' % (
                 comp[0].name, v.bucket, 'debug' if debug else 'off',
                 v.message[:2000]))
+            return 1
+        except Exception as e:
+            site = lib_site(e)
+            if site == 'outside-pamqp' or isinstance(e, (MemoryError, RecursionError)):
+                raise
+            print('VIOLATION property=%s replay=%s' % (mod.PROPERTY_ID, path))
+            print('  component=%s bucket=raises:%s@%s logging=%s\n  %r' % (
+                comp[0].name, type(e).__name__, site, 'debug' if debug else 'off', e))
             return 1
     print('replay %s: oracle holds on this case' % path)
     return 0
